@@ -88,11 +88,18 @@ Theorem C20_245_unsatisfiable : forall o : object, blen (snd o) = 245 -> min_pdu
 Proof. exact too_long_unsatisfiable. Qed.
 Print Assumptions C20_245_unsatisfiable.
 
-(* read code 0 passes the 0..4 guard and dies in the factory (KeyError; the server front-ends
-   turn that into exception 04 instead of 03) *)
-Theorem C20_read_code_0_refuted : forall idn oid, 0 <= oid <= 255 -> execute code idn 0 oid = Raise KeyError.
-Proof. exact read_code_0_raises. Qed.
-Print Assumptions C20_read_code_0_refuted.
+(* every read code outside 1..4 - read code 0 included (repaired in /repo 9a34217; before, 0
+   passed the guard and died with KeyError in the factory) - is answered with exception 03,
+   IllegalValue, for every identity and object id *)
+Theorem C20_invalid_read_code : forall idn c oid,
+  0 <= oid <= 255 -> ~ (1 <= c <= 4) -> execute code idn c oid = Ok (ExcResponse 3).
+Proof. exact invalid_read_code. Qed.
+Print Assumptions C20_invalid_read_code.
+
+(* ... and execute raises for no identity, read code and object id at all *)
+Theorem C20_execute_never_raises : forall idn c oid, exists r, execute code idn c oid = Ok r.
+Proof. exact execute_never_raises. Qed.
+Print Assumptions C20_execute_never_raises.
 
 (* CONFIGURATION HISTORIES.  Whatever sequence of ModbusDeviceIdentification(info=...) constructor
    calls, Identity.update({...}), Identity[k] = v and named-property assignments configured the
